@@ -537,8 +537,9 @@ Walk:
 			//		b/ [leaf=/foo/b/]
 			//		x/ [leaf=/foo/x/]
 			// But the parent (/foo) could be a leaf. This is only valid if we have an exact match with
-			// the intermediary node (charsMatched == len(path)).
-			if strings.HasSuffix(path, "/") && parent != nil && parent.isLeaf() && charsMatched == len(path) {
+			// the intermediary node (charsMatched == len(path)) and only its leading slash was consumed
+			// (charsMatchedInNodeFound == 1), so that the path minus its trailing slash is the parent's.
+			if strings.HasSuffix(path, "/") && parent != nil && parent.isLeaf() && charsMatched == len(path) && charsMatchedInNodeFound == 1 {
 				tsr = true
 				n = parent
 				// Save also a copy of the matched params, it should not allocate anything in most case.
